@@ -20,7 +20,8 @@ PLAN = {
     "C12": [("BELT", 6000, 600000, {})],
     "C13": [("BELT", 6000, 600000, {})],
     "C14": [("A", 8000, 600000, {})],
-    "C20": [("A", 4000, 300000, {"kinds": ["fls", "flt", "cconv", "sconv", "buf"]})],
+    "C19": [("B", 600, 20000, {"c19": True, "keep_digests": True})],
+    "C20": [("B", 2500, 150000, {"wide": True, "invalid": 0.3}), ("A", 4000, 300000, {"kinds": ["fls", "flt", "cconv", "sconv", "buf"]})],
 }
 
 THOROUGH_BUDGET_S = 900
